@@ -514,7 +514,13 @@ fn define_kinds_unit(unit: u64, out: &mut WorkerOut) {
   for (fname, stmt) in forms.iter() {
     for pre_defined in [false, true] {
       let mut s = Session::new();
-      if !s.run(&format!("{}{}", ann("k", ""), lit)).is_value() { out.count("define_kinds_setup_rejected"); continue; }
+      // the operand variable is itself a definition of this kind: judged like the others
+      let ok = s.run(&format!("{}{}", ann("k", ""), lit));
+      if !ok.is_value() {
+        out.count("define_kinds_operand_rejected");
+        if !s.snapshot().is_empty() { out.fail(format!("C05|failed-but-modified|define-kinds:define-scalar:{}", kind), format!("{}{}", ann("k", ""), lit), format!("the statement failed ({}) but left {:?}", ok.short(), s.snapshot().iter().map(|x| format!("{}={}", x.0, x.2.short())).collect::<Vec<_>>())); }
+        if stmt.contains('k') { continue; }
+      }
       s.run("w := [1 2 3]"); s.run("~v := 7");
       if pre_defined { s.run("a := 100"); }
       let before = s.snapshot();
